@@ -102,7 +102,8 @@ def evalPost (f : FsCfg) (s : Sys) : List String :=
 def eval (f : FsCfg) (s : Sys) (c : Call) : List String :=
   let w := s.w
   let t (b : Bool) (n : String) : List String := if b then [n] else []
-  let base : List String := t (anySymlinkRow w) "symlinkPresent" ++ t w.stuck "alreadyStuck"
+  let base : List String := t (anySymlinkRow w) "symlinkPresent" ++ t w.stuck "alreadyStuck" ++
+    t (s.blockedBy c.handleId) "partialRead"
   let spec : List String :=
     match c with
     | .mkdir n _ => t (parentNotDir w (clean n)) "parentNotDir"
